@@ -1,8 +1,8 @@
 #!/usr/bin/env python3
-"""Self-test of the round-7 translators (`containers` -> C12Gen, `reasoningN` -> C02Gen, `wiring` -> C13Gen, `ringslots` -> C05Gen, `executor` -> C06Gen, `spinwait` -> C13WaitGen, `spseq` -> C14Gen) on edited *copies* of the
+"""Self-test of the round-7 translators (`containers` -> C12Gen, `reasoningN` -> C02Gen, `wiring` -> C13Gen, `ringslots` -> C05Gen, `executor` -> C06Gen, `spinwait` -> C13WaitGen, `spseq` -> C14Gen, `mpseq` -> C14MGen) on edited *copies* of the
 sources — never touches /repo or /verif/lean:
 
-    python3 tools/test_rs2lean_round7.py [--repo /repo] [--only containers|reasoningN|wiring|ringslots|executor|spinwait|spseq]
+    python3 tools/test_rs2lean_round7.py [--repo /repo] [--only containers|reasoningN|wiring|ringslots|executor|spinwait|spseq|mpseq]
 
 A scratch copy of the source tree (git worktree-free: the files are copied) and of the Lean project (with its build output, so that
 only the touched modules are rebuilt) is made under a temporary directory; for every edit the translator is run on the copy and the
@@ -28,6 +28,7 @@ SPW = 'dcl_data_structures/src/ring_buffer/wait_strategy/spinlock_wait_strategy.
 CSQ = 'dcl_data_structures/src/ring_buffer/utils/cursor_sequence.rs'
 BLK = 'dcl_data_structures/src/ring_buffer/wait_strategy/blocking_wait_strategy.rs'
 SPS = 'dcl_data_structures/src/ring_buffer/producer/single_producer.rs'
+MPS = 'dcl_data_structures/src/ring_buffer/producer/multi_producer.rs'
 PUSH_LOOP = "        let mut all: Vec<&T> = Vec::new();\n        for item in self {\n            all.push(&item)\n        }\n        all\n"
 DEQ_TOVEC = ("        let mut v = Vec::with_capacity(self.len());\n        let mut deque = self.clone(); // clone to avoid mutating the original\n\n"
              "        for item in deque.make_contiguous().iter() {\n            v.push(item.clone());\n        }\n\n        v\n")
@@ -157,6 +158,20 @@ EDITS = {
         ('BREAK', 'publish stores lo', SPS, "    fn publish(&self, _: Sequence, hi: Sequence) {\n        self.cursor.set(hi);", "    fn publish(&self, lo: Sequence, _: Sequence) {\n        self.cursor.set(lo);"),
         ('BREAK', 'drain waits for one less', SPS, ".take().saturating_sub(1);", ".take().saturating_sub(2);"),
         ('BREAK', 'signal before the cursor store (refused)', SPS, "        self.cursor.set(hi);\n        self.wait_strategy.signal();", "        self.wait_strategy.signal();\n        self.cursor.set(hi);"),
+    ]),
+    'mpseq': ('DcVerif.Props.C14MGen', [
+        ('QUIET', 'has_capacity through locals, comparison turned round', MPS,
+         "        self.buffer_size\n            > high_watermark.saturating_sub(get_min_cursor_sequence::<_, AtomicSequenceOrdered>(\n                &self.gating_sequences,\n            )) as usize\n                + count",
+         "        let slowest = get_min_cursor_sequence::<_, AtomicSequenceOrdered>(&self.gating_sequences);\n        let unconsumed = high_watermark.saturating_sub(slowest) as usize;\n        unconsumed + count < self.buffer_size"),
+        ('QUIET', 'scan loop restructured (publish not in the read shape: fail-open)', MPS,
+         "        while good_to_release < hi {\n            if !self.ready_sequences.is_set(good_to_release + 1) {\n                break;\n            }\n            good_to_release += 1;\n        }",
+         "        while good_to_release < hi && self.ready_sequences.is_set(good_to_release + 1) {\n            good_to_release += 1;\n        }"),
+        ('BREAK', 'capacity test off by one', MPS, "            )) as usize\n                + count", "            )) as usize\n                + count - 1"),
+        ('BREAK', 'range starts at the watermark', MPS, "return (high_watermark + 1, end);", "return (high_watermark, end);"),
+        ('BREAK', 'bits cleared from the own lo', MPS, "for n in low_watermark..=good_to_release {", "for n in lo..=good_to_release {"),
+        ('BREAK', 'low watermark set to hi', MPS, "self.low_watermark.set(good_to_release);", "self.low_watermark.set(hi);"),
+        ('BREAK', 'scan probes the current sequence', MPS, "is_set(good_to_release + 1)", "is_set(good_to_release)"),
+        ('BREAK', 'drain waits on the high watermark (refused)', MPS, "        let current = self.cursor.get();\n        while get_min_cursor_sequence", "        let current = self.high_watermark.get();\n        while get_min_cursor_sequence"),
     ]),
 }
 
